@@ -18,6 +18,8 @@ mod syntax_sugar_traits;
 mod syntax_sugar_remover;
 
 pub use parser_logic::parse_definition;
+#[cfg(feature = "verif")]
+pub use parser_logic::preprocess;
 
 use include_logic::FileStack;
 use program_structure::ast::{Version, AST};
